@@ -132,8 +132,8 @@ func judgeC09Table(c *Ctx) {
 
 func runC09(c *Ctx, phase string) {
 	u := c.U
-	nMixed := c.Pick(8, 24)
-	nCompound := c.Pick(2, 8)
+	nMixed := c.Pick(8, 60)
+	nCompound := c.Pick(2, 16)
 	c.Meta("every listed license id and exception id x case variants (lower, UPPER, seeded random mixes) x contexts: alone as expression against allowed entries of its cluster (same id, cluster partners plain and +, unrelated), "+
 		"as allowed entry, with '+', inside 'X WITH e' (license varied, and exception varied), and at a leaf of generated compound expressions with subsets of the terms as allowed lists; only the listed id is re-cased "+
 		"(operators, LicenseRef-/DocumentRef- prefixes and names and harness-added suffixes keep their case). Also table-level facts: no two listed ids equal up to case; upper/lower form of every id is accepted. "+
